@@ -90,6 +90,9 @@ def classes():
     signals += [
         # a signal that merely LOOKS like the change signal of the notify-less property `nonotify` (nothing says the setter emits it)
         _meth("nonotifyChanged"),
+        # several arguments of one type: a handler that takes the wrong one still type-checks
+        _meth("paired", args=[("int", "a"), ("int", "b")]),
+        _meth("named", args=[("QString", "a"), ("QString", "b"), ("QString", "c")]),
         _meth("fired"),
         # poked(int a, QString b = QString()) : default-argument family
         _meth("poked", args=[("int", "a")]),
